@@ -988,4 +988,76 @@ func TestC19HttpE2E(t *testing.T) {
 		}
 		idx++
 	}
+
+	// Free-running stress of the connection TABLE (real concurrency, no bubble): for many new sources, 8 concurrent FIRST
+	// requests of the same source reach ServeHTTP at once. Lookup-or-create must be one critical section: OnConnect exactly
+	// once per source, one connection per address in the table. Every announced connection gets a reader; when the traffic
+	// is over the fake clock runs past the idle timeout and EVERY reader must fail - one that does not belongs to a
+	// connection that is in no table (created twice, the second overwrote the first): the idle sweep never reaches it.
+	if want(idx) {
+		em.Marker("begin", idx)
+		fc := clockwork.NewFakeClockAt(time.Unix(trEpoch, 0))
+		var mu sync.Mutex
+		announced := map[string]int{}
+		readers, finished := 0, 0
+		gohT := goat.NewGoatOverHttp(func(addr string, rw goat.RpcReadWriter) {
+			mu.Lock()
+			announced[addr]++
+			readers++
+			mu.Unlock()
+			for {
+				if _, err := rw.Read(context.Background()); err != nil {
+					mu.Lock()
+					finished++
+					mu.Unlock()
+					return
+				}
+			}
+		}, func(src string) (string, error) { return "stress " + src, nil },
+			goat.WithClock(fc), goat.WithConnectionCleanupInterval(time.Second), goat.WithConnectionTimeout(2*time.Second))
+		const sources, conc = 60, 8
+		for n := 0; n < sources; n++ {
+			start := make(chan struct{})
+			var wg sync.WaitGroup
+			for g := 0; g < conc; g++ {
+				wg.Add(1)
+				go func(g int) {
+					defer wg.Done()
+					b, _ := proto.Marshal(&Rpc{Id: uint64(n*100 + g), Header: &goatorepo.RequestHeader{Method: "/s/m", Source: fmt.Sprintf("s%d", n), Destination: "srv"}})
+					req := httptest.NewRequest("POST", "http://goat.test/", bytes.NewReader(b))
+					<-start
+					gohT.ServeHTTP(httptest.NewRecorder(), req)
+				}(g)
+			}
+			close(start)
+			wg.Wait()
+		}
+		// the traffic is over: idle timeout. The bound only ends the wait for readers that will never fail.
+		deadline := time.Now().Add(10 * time.Second)
+		for {
+			fc.Advance(3 * time.Second)
+			time.Sleep(2 * time.Millisecond)
+			mu.Lock()
+			done := finished == readers
+			mu.Unlock()
+			if done || time.Now().After(deadline) {
+				break
+			}
+		}
+		mu.Lock()
+		dup := 0
+		for _, c := range announced {
+			if c != 1 {
+				dup++
+			}
+		}
+		stuck, nAnn := readers-finished, len(announced)
+		mu.Unlock()
+		em.Emit(Rec{Idx: idx, Kind: "http-table-stress", Desc: map[string]any{"sources": sources, "concurrent_first_requests": conc},
+			Obs: map[string]any{"addresses_announced": nAnn, "announced_more_than_once": dup, "readers": readers, "readers_not_failed_by_idle_timeout": stuck},
+			Coq: fmt.Sprintf("CAssert 7 %s", coqBool(dup == 0 && stuck == 0 && nAnn == sources)), Tags: []string{"http:table-stress"}})
+		em.Marker("end", idx)
+		gohT.Cancel()
+	}
+	idx++
 }
